@@ -15,6 +15,10 @@ Sym(lang, t) ==
     CASE t = "NL" -> <<"NL">> [] t = "BC" -> <<"BC">> [] t = "BO" -> <<"BO">> [] t = "LC" -> <<"LC">>
       [] t = "TDQ" -> (IF lang = "python" THEN <<"TDQ">> ELSE <<"DQ", "DQ", "DQ">>)
       [] t = "TSQ" -> (IF lang = "python" THEN <<"TSQ">> ELSE <<"SQ", "SQ", "SQ">>)
+      \* runs of 2, 4 and 5 double quotes: a run that is not a multiple of three leaves quotes next to an escaped triple
+      [] t = "DDQ" -> <<"DQ", "DQ">>
+      [] t = "QDQ" -> (IF lang = "python" THEN <<"TDQ", "DQ">> ELSE <<"DQ", "DQ", "DQ", "DQ">>)
+      [] t = "PDQ" -> (IF lang = "python" THEN <<"TDQ", "DQ", "DQ">> ELSE <<"DQ", "DQ", "DQ", "DQ", "DQ">>)
       [] t = "BS" -> <<"BS">> [] t = "HASH" -> <<"HASH">> [] t = "BT" -> <<"BT">> [] t = "DQ" -> <<"DQ">>
       [] OTHER -> <<"X">>
 \* what the wrappers do to a token before writing it (since fixes in typeshare: line-comment backends start a new
@@ -23,6 +27,8 @@ WSym(lang, t) ==
     CASE t = "NL" /\ lang \in {"kotlin", "swift", "scala", "go"} -> <<"NL", "LC">>
       [] t = "BC" /\ lang = "typescript" -> <<"X", "BS", "X">>
       [] t = "TDQ" /\ lang = "python" -> <<"BS", "DQ", "BS", "DQ", "BS", "DQ">>
+      [] t = "QDQ" /\ lang = "python" -> <<"BS", "DQ", "BS", "DQ", "BS", "DQ", "DQ">>
+      [] t = "PDQ" /\ lang = "python" -> <<"BS", "DQ", "BS", "DQ", "BS", "DQ", "DQ", "DQ">>
       [] t = "BS" /\ lang = "python" -> <<"BS", "BS">>
       [] OTHER -> Sym(lang, t)
 Body(lang) == FlattenSeq([i \in 1..Len(doc) |-> WSym(lang, doc[i]) \o <<"DOC">>])
